@@ -332,7 +332,39 @@ class Fragment:
         self.text = self.text.replace(old, new)
         self.note(cls, c, detail or f"{old!r} -> {new!r}")
 
+    def _find_anchor(self, anchor, nth=1):
+        """(start, end) of the nth occurrence of anchor (str or compiled regex) or None."""
+        if hasattr(anchor, 'finditer'):
+            ms = list(anchor.finditer(self.text))
+            if len(ms) < nth:
+                return None
+            return ms[nth - 1].start(), ms[nth - 1].end()
+        idx = -1
+        start = 0
+        for _ in range(nth):
+            idx = self.text.find(anchor, start)
+            if idx < 0:
+                return None
+            start = idx + 1
+        return idx, idx + len(anchor)
+
+    def _lost(self, anchor):
+        if not hasattr(self, 'lost_hints'):
+            self.lost_hints = []
+        self.lost_hints.append(getattr(anchor, 'pattern', anchor))
+
     def insert_before(self, anchor, text, cls='V-SPEC', nth=1, optional=False):
+        if hasattr(anchor, 'finditer') or getattr(self, 'tolerant', True):
+            pos = self._find_anchor(anchor, nth)
+            if pos is None:
+                self._lost(anchor)
+                return False
+            self.text = self.text[:pos[0]] + text + self.text[pos[0]:]
+            self.note(cls, 1, f"ghost text before {getattr(anchor, 'pattern', anchor)!r}")
+            return True
+        return self._insert_before_strict(anchor, text, cls, nth, optional)
+
+    def _insert_before_strict(self, anchor, text, cls='V-SPEC', nth=1, optional=False):
         idx = -1
         start = 0
         for _ in range(nth):
@@ -350,6 +382,15 @@ class Fragment:
         return True
 
     def insert_after(self, anchor, text, cls='V-SPEC', nth=1, optional=False):
+        pos = self._find_anchor(anchor, nth)
+        if pos is None:
+            self._lost(anchor)
+            return False
+        self.text = self.text[:pos[1]] + text + self.text[pos[1]:]
+        self.note(cls, 1, f"ghost text after {getattr(anchor, 'pattern', anchor)!r}")
+        return True
+
+    def _insert_after_strict(self, anchor, text, cls='V-SPEC', nth=1, optional=False):
         idx = -1
         start = 0
         for _ in range(nth):
@@ -368,9 +409,11 @@ class Fragment:
 
     def insert_after_stmt(self, anchor, text, cls='V-SPEC'):
         """insert ghost text after the statement that starts with `anchor` (up to its terminating `;` at bracket depth 0)."""
-        idx = self.text.find(anchor)
-        if idx < 0:
-            raise ScanError(f"{self.what}: anchor not found: {anchor!r}")
+        pos = self._find_anchor(anchor)
+        if pos is None:
+            self._lost(anchor)
+            return False
+        idx = pos[0]
         s = self._src()
         depth = 0
         i = idx
@@ -473,7 +516,8 @@ class Fragment:
                f"                while __i < {x}.len() && ({re.sub(chr(92) + 'b' + m.group('v2') + chr(92) + 'b', x + '[__i]', m.group('q').strip())}) {{\n"
                f"                    {{ let {m.group('v3')} = &mut {x}[__i];{m.group('b')}}}\n"
                f"                    __i += 1;\n"
-               f"                }}")
+               f"                }}\n"
+               f"                /*@foreach_end*/")
         self.text = self.text[:m.start()] + new + self.text[m.end():]
         self.note('V-ITER', 1, '`X.iter_mut().skip_while(|w| P).take_while(|w| Q).for_each(|w| {B});` -> `let mut __i = 0; while __i < X.len() && (P[w := X[__i]]) { __i += 1; } while __i < X.len() && (Q[w := X[__i]]) { { let w = &mut X[__i]; B } __i += 1; }` (P, Q with the closure parameter substituted, B verbatim)')
 
@@ -511,6 +555,7 @@ class Fragment:
                f"                if {{ let {m.group('v1')} = &__w; {m.group('f').strip()} }} {{ let {m.group('v2')} = __w; __out.push({m.group('m').strip()}); }}\n"
                f"{step}"
                f"            }}\n"
+               f"            /*@drain_end*/\n"
                f"            __out }}")
         self.text = self.text[:m.start()] + new + self.text[m.end():]
         self.note('V-ITER', 1, '`X.drain(R).filter(|w| F).map(|w| M).collect()` -> loop popping the front, pushing M for elements satisfying F (F, M verbatim)')
